@@ -229,9 +229,37 @@ package soyhtml
 //@   ensures[never-swallows] !recd
 
 // errorf never returns and cannot fail before raising its panic.
+// C19: the render error carries the file that defines the state's template and
+// the line/column of the node the state is at.
 //@ func (*state).errFromNode
-//@   props C06
+//@   props C06 C19
+//@   ghost fname string = ""
+//@   ghost ln int = 0
+//@   ghost cn int = 0
+//@   ghost tname string = ""
+//@   at call (*state).templateName#0 after set tname = res
+//@   at call (*Registry).Filename#0 assert[file-of-template;C19] arg1 == tname
+//@   at call (*Registry).Filename#0 after set fname = res
+//@   at call (*Registry).LineNumber#0 assert[line-of-current-node;C19] arg1 == tname && arg2 == s.node
+//@   at call (*Registry).LineNumber#0 after set ln = res
+//@   at call (*Registry).ColNumber#0 assert[col-of-current-node;C19] arg1 == tname && arg2 == s.node
+//@   at call (*Registry).ColNumber#0 after set cn = res
+//@   at call errortypes.NewErrFilePosf#0 assert[file-line-col;C19] arg0 == fname && arg1 == ln && arg2 == cn
 //@   ensures[non-nil] result != nil
+
+// eval leaves the "current node" where it was: after evaluating a
+// sub-expression the state again points at the enclosing command, so the error
+// built by the entry state names the outermost failing command.
+//@ func (*state).eval
+//@   props C19
+//@   nosafety
+//@   modifies *
+//@   ensures[restores-current-node] s.node == old(s.node)
+
+//@ func (*state).templateName
+//@   props C06 C19
+//@   pure
+//@   ensures[name-of-the-states-template] s.tmpl.Node != nil ==> result == s.tmpl.Node.Name
 //@ func (*state).callAnnotation
 //@   props C06
 
